@@ -1,5 +1,6 @@
 import LogicaModel.AggLemmas
 import LogicaModel.Sem
+import LogicaModel.CQLemmas
 /-!
 # C02 — aggregation, distinct and negation follow the documented semantics
 
@@ -74,3 +75,23 @@ theorem negation_spec (db : DB) (n : Nat) (env : Env) (q : Prp) (sols : List Env
   rfl
 
 end Logica.Sem
+
+namespace Logica.CQ
+
+/-- **Aggregation happens over exactly the denoted bag** (conjunctive fragment): grouping and aggregating the
+rows of the compiled UNION ALL gives the aggregate of the documented semantics — the bag of solutions of all
+rules with equal key values — for every database, every number of key columns and every operator. -/
+theorem distinct_compile_correct_partial (db : DB) (n : Nat) (op : AggOp) (rs : List Rule)
+    (har : ∀ r ∈ rs, ArityOK db r) :
+    evalGroupBy db n op (rs.map compile) = denoteDistinct db n op rs := by
+  unfold evalGroupBy denoteDistinct
+  rw [compile_rules_correct db rs har]
+
+example :
+    let db : DB := fun p => if p = "a" then [[1, 2], [1, 2], [1, 5], [3, 4]] else []
+    let r : Rule := ⟨[.var 0, .var 1], [⟨"a", [.var 0, .var 1]⟩]⟩
+    denoteDistinct db 1 .sum [r] = [[1, 9], [3, 4]] ∧ denoteDistinct db 1 .count [r] = [[1, 2], [3, 1]] ∧
+    evalGroupBy db 1 .min [compile r] = [[1, 2], [3, 4]] := by
+  decide
+
+end Logica.CQ
